@@ -54,11 +54,16 @@ def sec_update_fns(rep):
     sy = H.Sy(extra="kc kb kt")
     for fns in H.SCHEMES + ("FFNS3", "", "zm-vfns"):
         for nf in (3, 4, 5, 6):
-            for opt in ("absent", "None", "given"):
+            for opt in ("absent", "None", "given", "legacy-entries"):
                 rep.cases += 1
 
                 def case(sy, fns=fns, nf=nf, opt=opt):
                     th = {"FNS": fns, "NfFF": nf, "PTO": 2, "kcThr": sy.kc, "kbThr": sy.kb, "ktThr": sy.kt, "mc": 1.5}
+                    if opt == "legacy-entries":
+                        # entries of older cards that the documentation does not list (kDIS*Thr of the
+                        # benchmark cards, comments, ...) must not decide anything: the table is a function
+                        # of FNS, NfFF and k*Thr alone
+                        th.update(kDIScThr=2.5, kDISbThr=0.25, kDIStThr=7.0, Comments="theory 200", ID=200, kThr=3.0)
                     if opt == "None":
                         th["PTODIS"], th["FONLLParts"] = None, None
                     elif opt == "given":
@@ -72,6 +77,8 @@ def sec_update_fns(rep):
                             out.append((k, th[k] == math.inf, True))
                         else:
                             out.append((k, th[k], v))
+                    if opt == "legacy-entries":
+                        out.append(("frame: legacy entries left as they are", {k: th.get(k) for k in ("kDIScThr", "kDISbThr", "kDIStThr", "Comments", "ID", "kThr")}, {"kDIScThr": 2.5, "kDISbThr": 0.25, "kDIStThr": 7.0, "Comments": "theory 200", "ID": 200, "kThr": 3.0}))
                     out.append(("PTODIS", th["PTODIS"], 1 if opt == "given" else 2))
                     out.append(("FONLLParts", th["FONLLParts"], "massive" if opt == "given" else "full"))
                     out.append(("frame: other keys untouched", {k: th[k] for k in ("FNS", "NfFF", "PTO", "mc")}, {k: before[k] for k in ("FNS", "NfFF", "PTO", "mc")}))
